@@ -38,6 +38,7 @@ def frames():
     yield "float_nonan", DataFrame(g=[2, 1, 2, 1], x=Vector([4.0, 3.0, 2.0, 1.0], float))
     yield "float32", DataFrame(g=[1, 1, 2, 3, 3, 3], x=Vector(np.array([0.5, np.nan, np.nan, 1.5, 7.0, np.nan], np.float32)))
     yield "datetime", DataFrame(g=[1, 1, 2, 3, 3, 3], x=Vector(["2020-01-02T03:04:05", nat, nat, "2021-01-01T00:00:00", "2020-01-01T12:00:00", "2021-01-01T00:00:00"], "datetime64[us]"))
+    yield "float_inf", DataFrame(g=[1, 1, 1, 2, 2, 3, 3], x=Vector([2.0, np.inf, 4.0, -np.inf, 6.0, np.nan, 1.0], float))
     yield "ties", DataFrame(g=[1, 1, 1, 1, 2, 2, 2, 2, 2, 3], x=Vector([1, 2, 2, 1, 3, 1, 2, 2, 1, 7], int))
     yield "empty", DataFrame(g=Vector([], int), x=Vector([], float))
 
@@ -64,6 +65,20 @@ def main():
     order = json.loads(sys.argv[1])
     res = {}
     for h in order:
+        if h.startswith("multi:"):
+            parts = h[6:].split("+")
+            for name, d in frames():
+                if name in ("date", "datetime", "timedelta") and any(p_ in NUMERIC_ONLY for p_ in parts):
+                    continue
+                if name == "float_inf" and any(p_.startswith("quantile") for p_ in parts):
+                    continue        # quantile with an infinite element: known finding, pinned on the single-helper calls
+                try:
+                    out = d.group_by("g").aggregate(**{f"y{t}": HELPERS[p_]("x") for t, p_ in enumerate(parts)})
+                    res[f"{h}/{name}"] = [[enc(out[f"y{t}"]) for t in range(len(parts))], " ".join(str(out[f"y{t}"].dtype) for t in range(len(parts)))]
+                    res[f"{h}/{name} receiver"] = [enc(d.x), str(d.x.dtype)]
+                except Exception as e:
+                    res[f"{h}/{name}"] = [f"raised {type(e).__name__}: {e}", ""]
+            continue
         for name, d in frames():
             if h in NUMERIC_ONLY and name in ("date", "datetime", "timedelta"):
                 continue
